@@ -646,21 +646,27 @@ Proof. cbn. destruct (ci_get n g) eqn:G; [discriminate|]. intros _. apply ci_get
 Lemma case_headers_ok ph c o ex gen n v :
   ci_user n (net c) = Some v ->
   ((ph = Coverage \/ ph = Stateful) -> outside_F3 n = true) ->
-  (ph = Stateful -> no_ci_key n (Some (entry c o LHeaders)) = true) ->
+  ((ph = Coverage \/ ph = Stateful) -> no_ci_key n (Some (entry c o LHeaders)) = true) ->
   h_ok n v (case_headers ph c o ex gen).
 Proof.
   intros Hu HF Hs. destruct (ci_user_spec _ _ _ Hu) as [Hall Hhas].
-  destruct ph; cbn [case_headers]; try apply tch_ok.
+  unfold case_headers. destruct ph; cbn [case_headers_with]; try apply tch_ok.
   - (* Coverage *)
+    assert (Hnm : nomatch n (entry c o LHeaders)) by (apply nokey_nomatch; apply Hs; left; reflexivity).
     unfold strategy_kwarg. destruct (is_empty (net c)) eqn:En.
     { destruct (net c); [|discriminate]. destruct Hhas as [k [x [[] _]]]. }
-    destruct gen as [g|]; cbn.
+    set (e' := match from_override c o LHeaders with Some e => e | None => [] end).
+    assert (He' : nomatch n e').
+    { unfold e', from_override. destruct (has_override c); [|intros ? ? []].
+      destruct (is_empty (entry c o LHeaders)); [intros ? ? [] | exact Hnm]. }
+    destruct gen as [g|]; cbn [cov_apply_h to_case_headers h_update h_ok].
     + apply wf_ci_update. apply wf_ci_of_items.
-    + split; [|apply HF; left; reflexivity]. intros k x Hin. apply Hall. eapply filter_sub. exact Hin.
+    + split; [|apply HF; left; reflexivity].
+      apply allv_update; [intros k x Hin; apply Hall; eapply filter_sub; exact Hin | apply allv_nomatch; exact He'].
   - (* Stateful *)
     unfold sf_apply_h. destruct (has_override c && negb (is_empty (entry c o LHeaders))); [|apply tch_ok].
     assert (Hnm : nomatch n (entry c o LHeaders)).
-    { apply nokey_nomatch. apply Hs. reflexivity. }
+    { apply nokey_nomatch. apply Hs. right. reflexivity. }
     assert (HP : h_ok n v (HPlain (assoc_update [] (entry c o LHeaders)))).
     { cbn. split; [|apply HF; right; reflexivity]. apply allv_update; [intros ? ? [] | apply allv_nomatch; exact Hnm]. }
     destruct gen as [g|]; cbn; [|exact HP].
@@ -672,7 +678,7 @@ Lemma net_header_wins ph c o ex gen ua cid defaults n v :
   ci_user n (net c) = Some v ->
   (auth c = None \/ leq n AUTHORIZATION = false) ->
   ((ph = Coverage \/ ph = Stateful) -> outside_F3 n = true) ->
-  (ph = Stateful -> no_ci_key n (Some (entry c o LHeaders)) = true) ->
+  ((ph = Coverage \/ ph = Stateful) -> no_ci_key n (Some (entry c o LHeaders)) = true) ->
   ci_get n (wire ph c o ex gen ua cid defaults) = Some v.
 Proof.
   intros Hu Ha HF Hs. unfold wire, final_headers. apply wire_net; [|exact Hu | exact Ha].
@@ -706,34 +712,45 @@ Proof.
   intros A B. cbn. split; [apply wf_ci_of_items|]. unfold ci_of_items. rewrite ci_get_ci_update. apply lastf_some; auto.
 Qed.
 
+Lemma gen_value_nonempty K gen : is_empty K = false ->
+  gen_value (Some K) gen = Some (match gen with Some g => assoc_update K g | None => K end).
+Proof. destruct K; [discriminate|]. intros _. destruct gen; reflexivity. Qed.
+
+Lemma hasn_nonempty n K : hasn n K -> is_empty K = false.
+Proof. intros [k [x [Hin _]]]. destruct K; [contradiction | reflexivity]. Qed.
+
 Lemma override_header_case ph c o ex gen n v :
   has_override c = true ->
   ci_user n (entry c o LHeaders) = Some v ->
-  (ph <> Stateful -> outside_F1 c = true) ->
+  outside_F4 c n = true ->
   ((ph = Fuzzing \/ ph = Examples) -> no_ci_key n gen = true) ->
   ((ph = Coverage \/ ph = Stateful) -> outside_F3 n = true) ->
   h_has n v (case_headers ph c o ex gen).
 Proof.
-  intros Hov Hu H1 Hg HF. destruct (ci_user_spec _ _ _ Hu) as [Hall Hhas].
+  intros Hov Hu H4 Hg HF. destruct (ci_user_spec _ _ _ Hu) as [Hall Hhas].
   pose proof (entry_nonempty _ _ _ _ Hhas) as Hne.
-  assert (Hkw : ph <> Stateful -> strategy_kwarg c o LHeaders = Some (entry c o LHeaders)).
-  { intros Hp. unfold strategy_kwarg. specialize (H1 Hp). unfold outside_F1 in H1. rewrite H1, Hov, Hne. reflexivity. }
-  destruct ph; cbn [case_headers].
+  assert (Hnn : nomatch n (net c)) by (apply nokey_nomatch; exact H4).
+  assert (Hkw : exists K, strategy_kwarg c o LHeaders = Some K /\ allv n v K /\ hasn n K).
+  { unfold strategy_kwarg, from_override. rewrite Hov, Hne. destruct (is_empty (net c)).
+    - exists (entry c o LHeaders). auto.
+    - eexists. split; [reflexivity|]. split.
+      + apply allv_update; [|exact Hall]. apply allv_nomatch. intros k x Hin. apply (Hnn k x). eapply filter_sub. exact Hin.
+      + apply hasn_update_r. exact Hhas. }
+  destruct Hkw as [K [HK [KA KH]]]. pose proof (hasn_nonempty _ _ KH) as KNE.
+  unfold case_headers. destruct ph; cbn [case_headers_with].
   - (* Examples *)
-    rewrite Hkw by discriminate. cbn [example_explicit]. unfold gen_value.
-    destruct (entry c o LHeaders) as [|p r] eqn:Ee; [discriminate|].
-    destruct gen as [g|]; cbn [to_case_headers].
-    + apply has_of_items; [apply allv_update; [exact Hall | apply allv_nomatch; apply nokey_nomatch; apply Hg; auto] | apply hasn_update_l; exact Hhas].
+    rewrite HK. cbn [example_explicit]. rewrite gen_value_nonempty by exact KNE. cbn [to_case_headers].
+    destruct gen as [g|].
+    + apply has_of_items; [apply allv_update; [exact KA | apply allv_nomatch; apply nokey_nomatch; apply Hg; auto] | apply hasn_update_l; exact KH].
     + apply has_of_items; assumption.
   - (* Coverage *)
-    rewrite Hkw by discriminate. destruct gen as [g|]; cbn [cov_apply_h to_case_headers h_update h_has].
+    rewrite HK. destruct gen as [g|]; cbn [cov_apply_h to_case_headers h_update h_has].
     + split; [apply wf_ci_update; apply wf_ci_of_items|]. rewrite ci_get_ci_update. apply lastf_some; auto.
-    + split; [exact Hall|]. split; [exact Hhas | apply HF; auto].
+    + split; [exact KA|]. split; [exact KH | apply HF; auto].
   - (* Fuzzing *)
-    rewrite Hkw by discriminate. unfold gen_value.
-    destruct (entry c o LHeaders) as [|p r] eqn:Ee; [discriminate|].
-    destruct gen as [g|]; cbn [to_case_headers].
-    + apply has_of_items; [apply allv_update; [exact Hall | apply allv_nomatch; apply nokey_nomatch; apply Hg; auto] | apply hasn_update_l; exact Hhas].
+    rewrite HK. rewrite gen_value_nonempty by exact KNE. cbn [to_case_headers].
+    destruct gen as [g|].
+    + apply has_of_items; [apply allv_update; [exact KA | apply allv_nomatch; apply nokey_nomatch; apply Hg; auto] | apply hasn_update_l; exact KH].
     + apply has_of_items; assumption.
   - (* Stateful *)
     unfold sf_apply_h. rewrite Hov, Hne. cbn [andb negb].
@@ -744,36 +761,68 @@ Proof.
     cbn [h_has]. split; [apply wf_ci_update; apply wf_ci_of_items|]. rewrite ci_get_ci_update. apply lastf_some; auto.
 Qed.
 
+(* header overrides win in ALL four phases, also when --header is configured (commit 9a3b607c),
+   as long as --header does not name the same header (F4) *)
 Lemma override_header_wins ph c o ex gen ua cid defaults n v :
   has_override c = true ->
   ci_user n (entry c o LHeaders) = Some v ->
-  (ph <> Stateful -> outside_F1 c = true) ->
-  (ph = Stateful -> no_ci_key n (Some (net c)) = true) ->
+  outside_F4 c n = true ->
   ((ph = Fuzzing \/ ph = Examples) -> no_ci_key n gen = true) ->
   ((ph = Coverage \/ ph = Stateful) -> outside_F3 n = true) ->
   (auth c = None \/ leq n AUTHORIZATION = false) ->
   ci_get n (wire ph c o ex gen ua cid defaults) = Some v.
 Proof.
-  intros Hov Hu H1 Hs Hg HF Ha. unfold wire, final_headers. apply wire_keep; [|  | exact Ha].
+  intros Hov Hu H4 Hg HF Ha. unfold wire, final_headers. apply wire_keep; [| | exact Ha].
   - apply override_header_case; assumption.
-  - destruct ph; try (unfold outside_F1 in H1; destruct (net c); [intros ? ? [] | specialize (H1 ltac:(discriminate)); discriminate]).
-    apply nokey_nomatch. apply Hs. reflexivity.
+  - apply nokey_nomatch. exact H4.
 Qed.
 
-(* F1: with --header configured the header override never reaches the generator in the unit phases *)
+(* F1 (fixed by 9a3b607c): regression witness on the old get_strategy_kwargs; the same
+   configuration on the code as it is now delivers the override in all four phases *)
 Definition s_xover : str := [88;45;79;118;101;114].
+Definition s_xg : str := [88;45;71].
 Definition c_F1 : cfg :=
   {| net := [([88;45;67], [49])]; auth := None; has_override := true;
      ov_query := []; ov_headers := [(s_xover, [79;86])]; ov_cookies := []; ov_path := [];
      unique_inputs := false; sanitize := true |}.
 Definition o_F1 : oper := {| d_query := []; d_headers := [s_xover]; d_cookies := []; d_path := [] |}.
-Lemma F1_witness :
-  ci_user s_xover (entry c_F1 o_F1 LHeaders) = Some [79;86] /\
-  no_ci_key s_xover (Some (net c_F1)) = true /\ outside_F3 s_xover = true /\
-  ci_get s_xover (wire Fuzzing c_F1 o_F1 None (Some [(s_xover, [71])]) [115;116] [49] []) = Some [71] /\
-  ci_get s_xover (wire Coverage c_F1 o_F1 None (Some [(s_xover, [71])]) [115;116] [49] []) = Some [71] /\
-  ci_get s_xover (wire Examples c_F1 o_F1 (Some [(s_xover, [71])]) None [115;116] [49] []) = None /\
+Lemma F1_regression :
+  has_override c_F1 = true /\ ci_user s_xover (entry c_F1 o_F1 LHeaders) = Some [79;86] /\
+  outside_F4 c_F1 s_xover = true /\ outside_F3 s_xover = true /\ auth c_F1 = None /\
+  ci_get s_xover (wire_prefix Fuzzing c_F1 o_F1 None (Some [(s_xover, [71])]) [115;116] [49] []) = Some [71] /\
+  ci_get s_xover (wire_prefix Coverage c_F1 o_F1 None (Some [(s_xover, [71])]) [115;116] [49] []) = Some [71] /\
+  [71] <> [79;86] /\
+  ci_get s_xover (wire Fuzzing c_F1 o_F1 None (Some [(s_xg, [71])]) [115;116] [49] []) = Some [79;86] /\
+  ci_get s_xover (wire Examples c_F1 o_F1 (Some [(s_xover, [71])]) (Some [(s_xg, [71])]) [115;116] [49] []) = Some [79;86] /\
+  ci_get s_xover (wire Coverage c_F1 o_F1 None (Some [(s_xover, [71])]) [115;116] [49] []) = Some [79;86] /\
   ci_get s_xover (wire Stateful c_F1 o_F1 None (Some [(s_xover, [71])]) [115;116] [49] []) = Some [79;86].
+Proof. repeat split; try (vm_compute; reflexivity); discriminate. Qed.
+
+(* F4: the same header configured by --header and --set-header: the --header value is sent *)
+Definition c_F4 : cfg :=
+  {| net := [(s_xover, [78;69;84])]; auth := None; has_override := true;
+     ov_query := []; ov_headers := [(s_xover, [79;86])]; ov_cookies := []; ov_path := [];
+     unique_inputs := false; sanitize := true |}.
+Lemma F4_refuted :
+  has_override c_F4 = true /\ ci_user s_xover (entry c_F4 o_F1 LHeaders) = Some [79;86] /\
+  outside_F3 s_xover = true /\ auth c_F4 = None /\ no_ci_key s_xover (Some [(s_xg, [71])]) = true /\
+  [78;69;84] <> [79;86] /\
+  ci_get s_xover (wire Examples c_F4 o_F1 None (Some [(s_xg, [71])]) [115;116] [49] []) = Some [78;69;84] /\
+  ci_get s_xover (wire Coverage c_F4 o_F1 None (Some [(s_xg, [71])]) [115;116] [49] []) = Some [78;69;84] /\
+  ci_get s_xover (wire Fuzzing c_F4 o_F1 None (Some [(s_xg, [71])]) [115;116] [49] []) = Some [78;69;84] /\
+  ci_get s_xover (wire Stateful c_F4 o_F1 None (Some [(s_xg, [71])]) [115;116] [49] []) = Some [78;69;84].
+Proof. repeat split; try (vm_compute; reflexivity); discriminate. Qed.
+
+(* ... except on the plain-dict path of the coverage phase when the two spellings differ: there the
+   override is the last spelling in the dict and requests lets it win (an inconsistency, recorded) *)
+Definition c_F4b : cfg :=
+  {| net := [([120;45;111;118;101;114], [78;69;84])]; auth := None; has_override := true;
+     ov_query := []; ov_headers := [(s_xover, [79;86])]; ov_cookies := []; ov_path := [];
+     unique_inputs := false; sanitize := true |}.
+Lemma F4_plain_dict_inconsistency :
+  ci_get s_xover (wire Coverage c_F4b o_F1 None None [115;116] [49] []) = Some [79;86] /\
+  ci_get s_xover (wire Coverage c_F4b o_F1 None (Some [(s_xg, [71])]) [115;116] [49] []) = Some [78;69;84] /\
+  ci_get s_xover (wire Fuzzing c_F4b o_F1 None None [115;116] [49] []) = Some [78;69;84].
 Proof. repeat split; vm_compute; reflexivity. Qed.
 
 (* ---- query / cookies / path parameters (plain dicts, exact names) ---- *)
@@ -892,7 +941,7 @@ Proof.
   pose proof (entry_pallv _ _ _ _ _ Hg) as Hall. pose proof (assoc_get_in _ _ _ Hg) as Hin.
   assert (Hne : is_empty (entry c o l) = false) by (destruct (entry c o l); [contradiction | reflexivity]).
   assert (Hkw : strategy_kwarg c o l = Some (entry c o l)).
-  { unfold strategy_kwarg. rewrite Hov, Hne. destruct l; try reflexivity. contradiction. }
+  { unfold strategy_kwarg, from_override. rewrite Hov, Hne. destruct l; try reflexivity. contradiction. }
   assert (Hgv : (ph = Fuzzing \/ ph = Examples) -> oget n (gen_value (Some (entry c o l)) gen) = Some v).
   { intros Hp. specialize (Hex Hp). unfold gen_value. destruct (entry c o l) as [|p r] eqn:Ee; [discriminate|]. rewrite <- Ee in *.
     destruct gen as [g|]; cbn [oget]; [|exact Hg].
@@ -1029,13 +1078,4 @@ Lemma F3_refuted :
   ci_get user_agent_lower (wire Coverage c_F3 o_none None None [115;116] [49] []) = Some [115;116] /\
   [115;116] <> [109;105;110;101] /\
   ci_get user_agent_lower (wire Fuzzing c_F3 o_none None None [115;116] [49] []) = Some [109;105;110;101].
-Proof. repeat split; try (vm_compute; reflexivity); discriminate. Qed.
-
-Lemma F1_refuted :
-  has_override c_F1 = true /\ ci_user s_xover (entry c_F1 o_F1 LHeaders) = Some [79;86] /\
-  no_ci_key s_xover (Some (net c_F1)) = true /\ outside_F3 s_xover = true /\ auth c_F1 = None /\
-  ci_get s_xover (wire Fuzzing c_F1 o_F1 None (Some [(s_xover, [71])]) [115;116] [49] []) = Some [71] /\
-  ci_get s_xover (wire Coverage c_F1 o_F1 None (Some [(s_xover, [71])]) [115;116] [49] []) = Some [71] /\
-  [71] <> [79;86] /\
-  ci_get s_xover (wire Stateful c_F1 o_F1 None (Some [(s_xover, [71])]) [115;116] [49] []) = Some [79;86].
 Proof. repeat split; try (vm_compute; reflexivity); discriminate. Qed.
